@@ -174,7 +174,7 @@ def oracle(ctx):
                         d1l, d1r = (v[2] - v[1]) / hh, (v[3] - v[2]) / hh
                         d2l, d2r = (v[2] - 2 * v[1] + v[0]) / hh ** 2, (v[4] - 2 * v[3] + v[2]) / hh ** 2
                         scale = float(yy.abs().max()) / min(xs[j + 1] - xs[j] for j in range(n - 1)) ** 2 + 1
-                        if abs(float(d1l - d1r)) > 50 * hh * scale or abs(float(d2l - d2r)) > 0.1 * scale:
+                        if not (abs(float(d1l - d1r)) <= 50 * hh * scale and abs(float(d2l - d2r)) <= 0.1 * scale):
                             ctx.fail("oracle", "interp:smoothness:%s" % bc, dict(info, knot=i),
                                      {"d1": [float(d1l), float(d1r)], "d2": [float(d2l), float(d2r)]}, "C1 and C2 at interior knots")
                             break
@@ -188,17 +188,17 @@ def oracle(ctx):
                         d2l = float((vl[2] - 2 * vl[1] + vl[0]) / h0 ** 2)
                         d2r = float((vr[3] - 2 * vr[2] + vr[1]) / hn ** 2)
                         lim = 0.02 * scale / min(xs[j + 1] - xs[j] for j in range(n - 1)) ** 2
-                        if abs(d2l) > lim or abs(d2r) > lim:
+                        if not (abs(d2l) <= lim and abs(d2r) <= lim):
                             ctx.fail("oracle", "interp:bc:natural", info, [d2l, d2r], "S'' = 0 at both ends")
                     if bc == "clamped":
                         d1l, d1r = float((vl[1] - vl[0]) / h0), float((vr[3] - vr[2]) / hn)
                         lim = 0.02 * scale / min(xs[j + 1] - xs[j] for j in range(n - 1))
-                        if abs(d1l) > lim or abs(d1r) > lim:
+                        if not (abs(d1l) <= lim and abs(d1r) <= lim):
                             ctx.fail("oracle", "interp:bc:clamped", info, [d1l, d1r], "S' = 0 at both ends")
                     if bc == "periodic":
                         d1l, d1r = float((vl[1] - vl[0]) / h0), float((vr[3] - vr[2]) / hn)
                         lim = 0.02 * scale / min(xs[j + 1] - xs[j] for j in range(n - 1))
-                        if abs(d1l - d1r) > lim:
+                        if not abs(d1l - d1r) <= lim:
                             ctx.fail("oracle", "interp:bc:periodic", info, [d1l, d1r], "S' equal at the two ends")
                 # extrapolation values
                 out_q = torch.tensor([xs[0] - 0.3 * span, xs[-1] + 0.4 * span, xs[0] + 0.5 * span], dtype=DT)
@@ -211,7 +211,7 @@ def oracle(ctx):
                     "periodic": lambda r: bool(torch.allclose(r[:2], f(torch.tensor([xs[0] + 0.7 * span, xs[0] + 0.4 * span], dtype=DT)), rtol=1e-8, atol=1e-9)),
                 }
                 for ex, pred in vals.items():
-                    if ex == "periodic" and abs(float(yy[0] - yy[-1])) > 1e-12:
+                    if ex == "periodic" and not abs(float(yy[0] - yy[-1])) <= 1e-12:
                         continue
                     try:
                         r = Interp1D(x, yy, method=method, extrap=ex, **kw)(out_q)
